@@ -672,8 +672,75 @@ static void k_asn1(Tape &t)
 	stats.eval(fmt("asn1/%zu/%zu/%zu/%u", ol, r.size(), s.size(), mut));
 }
 
+// a PRNG whose first draws are scripted (then an HMAC_DRBG): boundary values for the rejection sampling of keygen
+struct ScriptedPrng {
+	const br_prng_class *vt;
+	std::vector<Bytes> script;
+	size_t next = 0;
+	br_hmac_drbg_context fallback;
+};
+static void sp_init(const br_prng_class **, const void *, const void *, size_t) {}
+static void sp_generate(const br_prng_class **ctx, void *out, size_t len)
+{
+	ScriptedPrng *s = (ScriptedPrng *)ctx;
+	if (s->next < s->script.size() && s->script[s->next].size() == len) { memcpy(out, s->script[s->next].data(), len); s->next++; return; }
+	s->next = s->script.size();
+	br_hmac_drbg_generate(&s->fallback, out, len);
+}
+static void sp_update(const br_prng_class **, const void *, size_t) {}
+static const br_prng_class SP_VT = { sizeof(ScriptedPrng), sp_init, sp_generate, sp_update };
+
+static void k_keygen_boundary(Tape &t)
+{
+	const ImplDef &im = impls[t.u8() % impls.size()];
+	CurveDef &c = CURVES[t.u8() % 3];
+	if (!(im.impl->supported_curves & (1u << c.id))) { stats.eval(); return; }
+	size_t ol = (size_t)BN_num_bytes(c.order);
+	ScriptedPrng sp;
+	sp.vt = &SP_VT;
+	Bytes seed = t.filled(8);
+	br_hmac_drbg_init(&sp.fallback, &br_sha256_vtable, seed.data(), seed.size());
+	std::string hist;
+	unsigned nd = 1 + t.u8() % 3;
+	for (unsigned i = 0; i < nd; i++) {
+		BN v;
+		unsigned k = t.u8() % 7;
+		static const char *KN[] = { "0", "n", "n+1", "n-1", "1", "2^bits-1", "n+2^k" };
+		BN_copy(v.b, c.order);
+		switch (k) {
+		case 0: BN_zero(v.b); break;
+		case 1: break;
+		case 2: BN_add_word(v.b, 1); break;
+		case 3: BN_sub_word(v.b, 1); break;
+		case 4: BN_one(v.b); break;
+		case 5: BN_one(v.b); BN_lshift(v.b, v.b, BN_num_bits(c.order)); BN_sub_word(v.b, 1); break;
+		default: BN_set_bit(v.b, (int)(t.u8() % (BN_num_bits(c.order) - 1))); break;   // some value >= n (or n with a bit already set: then n itself)
+		}
+		sp.script.push_back(bn2b(v.b, ol));
+		hist += std::string(KN[k]) + " ";
+	}
+	Bytes kb(BR_EC_KBUF_PRIV_MAX_SIZE + 4, 0xEE);
+	br_ec_private_key sk;
+	size_t l = br_ec_keygen(&sp.vt, im.impl, &sk, kb.data(), c.id);
+	VF_CHECK(l == ol && sk.xlen == ol && kb[l] == 0xEE, "%s keygen(%s): length %zu", im.name, c.name, l);
+	BN x;
+	BN_bin2bn(sk.x, (int)sk.xlen, x.b);
+	VF_CHECK(!BN_is_zero(x.b) && BN_cmp(x.b, c.order) < 0, "%s keygen(%s) with a generator whose first draws are [%s]: private key %s is not in [1, n-1]", im.name, c.name, hist.c_str(),
+		BN_is_zero(x.b) ? "0" : BN_cmp(x.b, c.order) == 0 ? "n" : "above n");
+	Bytes pb(BR_EC_KBUF_PUB_MAX_SIZE);
+	br_ec_public_key pk;
+	size_t pl = br_ec_compute_pub(im.impl, &pk, pb.data(), &sk);
+	PT Q(c);
+	EC_POINT_mul(c.grp, Q.p, x.b, nullptr, nullptr, bnctx);
+	Bytes pub = point_bytes(c, Q.p);
+	VF_CHECK(pl == pub.size() && memcmp(pk.q, pub.data(), pl) == 0, "%s keygen(%s) [%s]: compute_pub differs from OpenSSL", im.name, c.name, hist.c_str());
+	stats.cls("keygen:scripted-boundary-draws");
+	stats.eval(fmt("kgb/%s/%d/%s", im.name, c.id, hist.c_str()));
+}
+
 static void k_keygen(Tape &t)
 {
+	if (t.u8() % 3 == 0) { k_keygen_boundary(t); return; }
 	const ImplDef &im = impls[t.u8() % impls.size()];
 	int curves[4] = { BR_EC_secp256r1, BR_EC_secp384r1, BR_EC_secp521r1, BR_EC_curve25519 };
 	int cv = curves[t.u8() % 4];
